@@ -43,7 +43,7 @@ ASSUMPTIONS = ["asyncio Task/Lock/Semaphore/Event semantics are the real ones; o
 LEVEL_TEXT = ("for each generated scenario every single-fault position over the await points of the fault-free run is "
               "enumerated (kinds: OSError, never-completes, client EOF before/after); scenarios themselves are sampled")
 LEVEL_NOTE = "trusts lib/simloop.py + lib/simhandler.py (fakes) and asyncio itself; multi-fault combinations only as generated"
-QUICK_N, THOROUGH_N = 6_000, 150_000  # base scenarios (~45 faulted runs each are counted as evaluations; ~840 runs/s/core)
+QUICK_N, THOROUGH_N = 4_500, 150_000  # base scenarios (~45 faulted runs each are counted as evaluations; ~840 runs/s/core)
 MAX_POINTS = 48
 
 KINDS_IO = ("err", "hang", "ceof", "ceof_after")
@@ -59,8 +59,9 @@ def judge(w, out, ctx, case, tag):
     def fail(bucket, msg):
         ctx.fail(bucket, msg + " | fault=%s | hooks=%s" % (tag, shape(w)), case=case)
 
+    mode = "eager-task-start" if w.plan.get("eager") else "lazy-task-start"
     if out.error is not None:
-        ctx.crash(out.error, prefix="handle_client-raised", case=case)
+        ctx.crash(out.error, prefix="handle_client-raised:" + mode, case=case)
     if out.ended != "ok":
         # the idle timeout that fires while a hook is pending (C10's finding) hits `assert handler` in on_timeout when
         # the client handler does not exist yet; the watchdog task dies and nothing ends an idle connection any more
@@ -84,7 +85,13 @@ def judge(w, out, ctx, case, tag):
         if r[3] is not None:
             per[r[3]].append(r[2])
     called = {c["server"] for c in w.net.calls}
+    delivered = {(r[2], r[3]) for r in w.trace if r[1] == "event"}  # (event type, connection index)
+    # connections whose handler task is still pending when handle_client has returned are reported by the task-leak
+    # clause; what they do afterwards (they are cancelled by the harness' clean-up) says nothing about pairing
+    late = {w.task_server.get(t) for t in out.leftover} - {None}
     for idx, seq in sorted(per.items()):
+        if idx in late:
+            continue
         nsc = seq.count("server_connect")
         nok = seq.count("server_connected")
         nerr = seq.count("server_connect_error")
@@ -98,8 +105,10 @@ def judge(w, out, ctx, case, tag):
                     phase = "after-open_connection-call"
                 elif _hook_interrupted(w, "server_connect", idx):
                     phase = "abandoned-in-server_connect-hook"
-                else:
+                elif _waiting_for_slot(w, idx):
                     phase = "abandoned-waiting-for-connection-slot"
+                else:
+                    phase = "abandoned-unexplained"
                 fail("connect-outcome:none:" + phase, "server %d: %r" % (idx, seq))
             else:
                 fail("connect-outcome:both-or-repeated", "server %d: %r" % (idx, seq))
@@ -107,7 +116,8 @@ def judge(w, out, ctx, case, tag):
             fail("connect-outcome:without-server_connect", "server %d: %r" % (idx, seq))
         if out.ended == "ok":
             if nok and ndis != 1:
-                fail("server_disconnected:count=%d-after-connected" % ndis, "server %d: %r" % (idx, seq))
+                fail("server_disconnected:count=%d-after-connected%s" % (ndis, ":" + _skip_cause(w, idx, delivered) if ndis == 0 else ""),
+                     "server %d: %r" % (idx, seq))
             if ndis and not nok:
                 fail("server_disconnected:without-connected", "server %d: %r" % (idx, seq))
             if nok and ndis and seq.index("server_disconnected") < seq.index("server_connected"):
@@ -125,20 +135,31 @@ def judge(w, out, ctx, case, tag):
         for c in w.net.calls:
             wr = c["writer"]
             if wr is not None and not wr.closed:
+                if c["server"] in late:
+                    continue
                 seq = per.get(c["server"], [])
-                phase = "handle_connection-skipped" if "server_disconnected" not in seq else "after-server_disconnected"
-                fail("socket-leak:" + phase, "socket %s (server %s) never closed: %r" % (wr.label, c["server"], seq))
+                fail("socket-leak:" + _leak_cause(w, c["server"], seq, delivered, mode),
+                     "socket %s (server %s) never closed: %r" % (wr.label, c["server"], seq))
         stale = 0
         for conn, io in w.handler.transports.items():
             live_task = io.handler is not None and not io.handler.done()
             live_writer = io.writer is not None and not io.writer.closed
             if live_task or live_writer:
                 if conn is w.handler.client:
-                    # lazy: the handler task can be cancelled before its first step; eager: it cannot
-                    who = "client:eager-task-start" if w.plan.get("eager") else "client:lazy-task-start"
+                    # lazy: the handler task can be cancelled before its first step; eager: it cannot, but it can
+                    # be cancelled while it queues for _server_event_lock
+                    if w.net.client_reader.reads == 0:
+                        why = "handler-never-ran"
+                    elif ("ConnectionClosed", -1) not in delivered:
+                        why = "handler-aborted-before-ConnectionClosed"
+                    else:
+                        why = "unexplained"
+                    who = "client:%s:%s" % (mode, why)
+                elif w.conn_index(conn) in late:
+                    continue
                 else:
                     seq = per.get(w.conn_index(conn), [])
-                    who = "server:" + ("handle_connection-skipped" if "server_disconnected" not in seq else "after-server_disconnected")
+                    who = "server:" + _leak_cause(w, w.conn_index(conn), seq, delivered, mode)
                 fail("transports-live-entry:%s" % who,
                      "entry for %r still live (task pending=%s, writer open=%s)" % (w.conn_index(conn), live_task, live_writer))
             else:
@@ -165,14 +186,46 @@ def judge(w, out, ctx, case, tag):
             if w.task_server.get(t) in in_disc:
                 ctx.cls("server_disconnected-hook-outlives-handle_client")
                 continue
-            left.append(n)
+            left.append((n, w.task_server.get(t)))
         if left:
-            fail("task-leak:" + left[0].split(" ")[0].split("(")[0], "tasks still pending after handle_client returned: %r" % (left,))
+            n, idx = left[0]
+            fail("task-leak:" + n.split(" ")[0].split("(")[0] + ":" + _late_open_cause(w, idx),
+                 "tasks still pending after handle_client returned: %r" % (left,))
     if out.stuck:
         fail("task-uncancellable", "%r" % ([t.get_name() for t in out.stuck],))
     for t in out.loop.tasks:
         if t.done() and not t.cancelled() and t.exception() is not None and not t.get_name().startswith("Task-"):
             ctx.cls("task-exception:%s:%s" % (t.get_name().split(" ")[0], type(t.exception()).__name__))
+
+
+def _skip_cause(w, idx, delivered):
+    """server_connected fired but handle_connection never ran: why?"""
+    if _hook_interrupted(w, "server_connected", idx):
+        return "cancelled-in-server_connected-hook"
+    if ("OpenConnectionCompleted", idx) not in delivered:
+        return "cancelled-before-OpenConnectionCompleted"
+    return "unexplained"
+
+
+def _leak_cause(w, idx, seq, delivered, mode):
+    if "server_disconnected" not in seq:
+        return "handle_connection-skipped:" + _skip_cause(w, idx, delivered)
+    if ("ConnectionClosed", idx) not in delivered:
+        # handle_connection ended without reporting ConnectionClosed: it was cancelled outside its try blocks, which
+        # takes a suspension at `await self.server_event(...)`, i.e. contention on _server_event_lock (eager tasks)
+        return "after-server_disconnected:aborted-before-ConnectionClosed:" + mode
+    return "after-server_disconnected:unexplained:" + mode
+
+
+def _late_open_cause(w, idx):
+    """a connection task that outlives handle_client: when and why was the connection requested?"""
+    t_cd = next((r[0] for r in w.trace if r[1] == "hook" and r[2] == "client_disconnected"), None)
+    pos = next((i for i, r in enumerate(w.trace) if r[1] == "cmd" and r[2] == "open" and r[3] == idx), None)
+    if pos is None or t_cd is None:
+        return "unexplained"
+    ev = next((r for r in reversed(w.trace[:pos]) if r[1] == "event"), None)
+    when = "opened-after-client_disconnected" if w.trace[pos][0] >= t_cd else "opened-before-client_disconnected"
+    return "%s:on-%s" % (when, ev[2] if ev else "?")
 
 
 def _timeout_during_hook(w):
@@ -188,34 +241,14 @@ def _timeout_during_hook(w):
 
 
 def _hook_interrupted(w, name, idx):
-    """did the hook `name` of server idx end before its planned duration elapsed (i.e. was it cancelled)?"""
-    start = next((r for r in w.trace if r[1] == "hook" and r[2] == name and r[3] == idx), None)
+    """was the hook `name` of server idx cancelled (its handler task cancelled while the hook was pending)?"""
     end = next((r for r in w.trace if r[1] == "hook_end" and r[2] == name and r[3] == idx), None)
-    if start is None or end is None:
-        return True
-    hooks = w.plan.get("hooks", ())
-    dur = hooks[start[4]][0] if start[4] < len(hooks) else 0
-    return end[0] - start[0] < dur * simhandler.U
+    return end is None or not end[5]
 
 
 def _waiting_for_slot(w, idx):
-    """server idx finished its server_connect hook, never called open_connection: it was queued on the semaphore"""
-    end = [r for r in w.trace if r[1] == "hook_end" and r[2] == "server_connect" and r[3] == idx]
-    if not end:
-        return False
-    addr = None
-    for r in w.trace:
-        if r[1] == "cmd" and r[2] == "open" and r[3] == idx:
-            addr = r[4]
-    # slot shortage: >= 5 calls to the same address were in flight or established when the hook ended
-    t = end[0][0]
-    busy = 0
-    for c in w.net.calls:
-        if c["address"] == simhandler.ADDRS[addr] and c["t_call"] <= t:
-            wr = c["writer"]
-            if c["t_done"] is None or c["t_done"] > t or (wr is not None and (wr.closed_at is None or wr.closed_at > t)):
-                busy += 1
-    return busy >= 5
+    """server idx had to queue for the max_conns semaphore of its address and never got to call open_connection"""
+    return any(r[1] == "slot_wait" and r[2] == idx for r in w.trace) and idx not in {c["server"] for c in w.net.calls}
 
 
 def shape(w):
@@ -284,3 +317,9 @@ def check_case(case, ctx):
 
 def strategy(ctx):
     return simhandler.plan_strategy(max_timeout=3, max_conn=9, size=320).map(lambda p: {"plan": p})
+
+
+def run(ctx):
+    # one case = ~45 simulator runs, so shrinking is costly; the quick tier caps it (replays carry the exact fault anyway)
+    from runner import hyp
+    hyp(ctx, strategy(ctx), check_case, ctx.n(QUICK_N, THOROUGH_N), shrink_s=None if ctx.thorough else 8)
